@@ -516,6 +516,10 @@ def run(ctx):
     from vt.checks import xcli
 
     xcli.xordecode_cli_part(ctx)
+    # the candidate generator resumed after the caller moved the file handle (Resume.tla)
+    from vt.checks import xresume
+
+    xresume.resume_part(ctx, "C09")
     # history freedom of the functions of their input behind this property (Pure.tla)
     from vt.checks import xpure
 
